@@ -41,6 +41,8 @@ Quirks kept on purpose:
   the module prefix;
 * `Parts()` (and its character check) is only reached on some routes: a module loader for every name, the global loader
   never, the dependency loader for qualified names;
+* `InstantiatePuppetType` compares the declared name with the requested one BEFORE `AddTypes`: a misnamed file binds nothing
+  (`instantiator`: the `PCORE_WRONG_DEFINITION` branch raises without touching the entries; `C15_error_no_binding`);
 * `SetEntry` of a freshly parsed alias/object over an existing definition is always an `ATTEMPT_TO_REDEFINE_TYPE` (the new
   type is not yet resolved, so `Equals` is false); two type sets with the same name are equal;
 * the recursion `find → instantiate → AddTypes → resolveTypeSet → LoadEntry → find` is cut only by the placeholder that
